@@ -205,8 +205,10 @@ impl<CS: CipherSuite, S: SecretKey<CS::KeGroup>> ServerSetup<CS, S> {
     /// Deserialization from bytes
     pub fn deserialize(input: &[u8]) -> Result<Self, ProtocolError<S::Error>> {
         let seed_len = OutputSize::<OprfHash<CS>>::USIZE;
-        let key_len = <CS::KeGroup as KeGroup>::SkLen::USIZE;
-        let checked_slice = check_slice_size(input, seed_len + key_len + key_len, "server_setup")?;
+        let key_len = S::Len::USIZE;
+        let fake_key_len = <CS::KeGroup as KeGroup>::SkLen::USIZE;
+        let checked_slice =
+            check_slice_size(input, seed_len + key_len + fake_key_len, "server_setup")?;
 
         Ok(Self {
             oprf_seed: GenericArray::clone_from_slice(&checked_slice[..seed_len]),
